@@ -21,7 +21,7 @@
     "all centre hydrogens explicit" branch (default mode: _strip_explicit_h, hydrogen expansion, _explicit_h). *)
 From Coq Require Import List NArith ZArith Bool Permutation.
 From SK Require Import lib.Mono model.C06_Model lib.C06_Spec model.C11_Model.
-From SK Require Import lib.Tok lib.LGraph model.C03_Model model.C04_Model model.C04_Reactor proof.C04_Any proof.C04_Check proof.C04_Proof proof.C04_DefaultProof proof.C04_Engine proof.C04_Prune proof.C04_Examples proof.C04_Object proof.C04_Chain proof.C04_ObjectExamples.
+From SK Require Import lib.Tok lib.LGraph model.C03_Model model.C04_Model model.C04_Reactor proof.C04_Any proof.C04_Check proof.C04_Proof proof.C04_DefaultProof proof.C04_Engine proof.C04_Prune proof.C04_Examples proof.C04_Object proof.C04_Chain proof.C04_Template proof.C04_Fold proof.C04_Default proof.C04_Explicit proof.C04_DefaultEnd proof.C04_ObjectExamples.
 Import ListNotations.
 Local Open Scope Z_scope.
 
@@ -285,3 +285,40 @@ Theorem C04_reverse_reaction : forall r p : bytes, no_gt r -> no_gt p ->
   last_piece (r ++ arrow ++ p) = p.
 Proof. exact reverse_reaction_all. Qed.
 Print Assumptions C04_reverse_reaction.
+
+(** * the _explicit_h stage (default mode) *)
+
+(** _explicit_h does not change the reaction in implicit-hydrogen normal form.  For ANY ITS [T] with distinct atom ids
+    whose two sides are, exactly, the implicit-hydrogen forms of two molecule graphs A and B ([regen_exact T (h_to_implicit_host
+    A) (h_to_implicit_host B)]: what C04_identity_glue_default / C04_identity_glue_any_rule establish for the glued ITS), with
+    A and B well formed, closed and foldable (every hydrogen atom has a neighbour and only non-hydrogen neighbours): if
+    _explicit_h returns [T'] -- with whatever list of migrations -- then [T'] decomposes to (A, B) in implicit-hydrogen
+    normal form.  Proof: every re-materialised hydrogen hangs on its donor only (reactant side) / its recipient only
+    (product side), the counts of both were lowered by one per hydrogen, and h_to_implicit folds each of them back:
+    h_to_implicit (side of T') = side of T, exactly (proof/C04_Explicit.v explicit_left / explicit_right). *)
+Theorem C04_explicit_h_keeps_reaction : forall (T T' : its) (ms : list (N * N)) (A B : hostg),
+  wf_hostb A = true -> wf_hostb B = true -> foldable A -> foldable B -> closed A -> closed B ->
+  NoDup (node_ids T) ->
+  regen_exact T (h_to_implicit_host A) (h_to_implicit_host B) = true ->
+  explicit_h T = Some (T', ms) ->
+  regen_folded T' A B = true.
+Proof. exact explicit_end. Qed.
+Print Assumptions C04_explicit_h_keeps_reaction.
+
+(** the DEFAULT mode to the end of its_list, for the reaction's own templates (centre or full ITS, forwards or backwards):
+    under the hypotheses of C04_identity_glue_default, [regenerate] -- rule preparation by _strip_explicit_h, gluing
+    along the identity, _explicit_h -- returns an ITS that decomposes to the reaction in implicit-hydrogen normal form
+    ([regen_folded]: the comparison the harness makes on every case), PROVIDED _explicit_h does not raise on the glued ITS.
+    That last premise is the one thing still validated per case (observable: the result of _explicit_h on every glued ITS;
+    C03_explicitH_crash_iff characterises it: every hydrogen-transfer group has at least as many places to take hydrogens
+    as hydrogens to give); deriving it from [default_okb] needs C03's pair-id bookkeeping and is not done. *)
+Theorem C04_identity_default_end : forall (core invert : bool) (G H : hostg),
+  pair_wfb G H = true -> mode_E G H = true ->
+  default_okb (if invert then H else G) (if invert then G else H) (template core invert G H) = true ->
+  (core = true -> centre_carries (its_construct G H) = true) ->
+  (forall rc l r T, rule_of core invert G H = Some (rc, l, r) ->
+     glue (substrate invert G H) rc (id_map (node_ids (pattern_of l))) = Some T -> explicit_h T <> None) ->
+  exists T' : its, regenerate core invert G H = Some T' /\
+    regen_folded T' (if invert then H else G) (if invert then G else H) = true.
+Proof. exact default_identity_end. Qed.
+Print Assumptions C04_identity_default_end.
